@@ -107,6 +107,15 @@ func c16HSM(r *Run, t *tape.Tape) {
 	case "chosen":
 		rr, rc := boundaryScalar(t, n)
 		ss, sc := boundaryScalar(t, n)
+		if t.Bool(1, 6, "c16.derlen") {
+			// (r, s) whose DER encoding happens to be exactly as long as the
+			// fixed-width form: a length test cannot tell the two apart
+			if a, b := derLenTwoN(t, n); a != nil {
+				rr, ss = a, b
+				rc, sc = fmt.Sprintf("lead0x%d", refcose.OrderLen(curve)-len(a.Bytes())), fmt.Sprintf("lead0x%d", refcose.OrderLen(curve)-len(b.Bytes()))
+				r.Probe("der-length-equals-fixed-width")
+			}
+		}
 		hsm.Mode, hsm.R, hsm.S = "chosen", rr, ss
 		var sig []byte
 		r.Lib(func() { sig, err = signer.Sign(ent, content) })
@@ -284,11 +293,43 @@ func c16Verifier(r *Run, t *tape.Tape) {
 	name := curve.Params().Name
 	content := t.Bytes(1+t.Choose(40, "c16.content.n"), "c16.content")
 	rr, ss := c16SearchRealSig(t, priv, k.Alg, content)
-	good := refcose.ECDSASigBytes(curve, rr, ss)
 	verifier := r.verifierFor(k, false)
+	if t.Bool(1, 4, "c16.forged") {
+		// a key for which a CHOSEN (r, s) with many leading zero bytes is a
+		// genuine signature of the content: Q = r^-1 (s R - z G) for a point R
+		// whose x-coordinate is r.  Gives every curve signatures whose halves
+		// leave room for "+ n" inside the fixed width.
+		if q, fr, fs := forgeECKey(t, curve, refcose.Digest(refcose.HashFor(k.Alg), content)); q != nil {
+			fk := &KeyPair{Name: k.Name + "-forged", Alg: k.Alg, Pub: q, Curve: curve}
+			var fv cose.Verifier
+			var ferr error
+			r.Lib(func() { fv, ferr = cose.NewVerifier(cose.Algorithm(k.Alg), q) })
+			if ferr == nil && refcose.ValidSignature(k.Alg, q, content, refcose.ECDSASigBytes(curve, fr, fs)) {
+				k, verifier, rr, ss = fk, fv, fr, fs
+				r.Probe("forged-key-with-short-r-and-s")
+			}
+		}
+	}
+	good := refcose.ECDSASigBytes(curve, rr, ss)
 	var offered []byte
 	variant := ""
-	switch t.Choose(11, "c16.variant") {
+	switch t.Choose(13, "c16.variant") {
+	case 11, 12:
+		// a half replaced by itself plus the group order, where that still
+		// fits the fixed width: congruent modulo n, but not in [1, n-1]
+		offered, variant = good, "exact"
+		nn := curve.Params().N
+		rp, sp := new(big.Int).Add(rr, nn), new(big.Int).Add(ss, nn)
+		rfits, sfits := len(rp.Bytes()) <= size, len(sp.Bytes()) <= size
+		which := t.Choose(3, "c16.plus.which")
+		if rfits && (which == 0 || which == 2 || !sfits) {
+			offered = append(rp.FillBytes(make([]byte, size)), good[size:]...)
+			variant = "half-plus-order"
+		}
+		if sfits && (which == 1 || which == 2 || !rfits) {
+			offered = append(append([]byte{}, offered[:size]...), sp.FillBytes(make([]byte, size))...)
+			variant = "half-plus-order"
+		}
 	case 0:
 		offered, variant = good, "exact"
 	case 1:
@@ -392,3 +433,87 @@ func c16Verifier(r *Run, t *tape.Tape) {
 }
 
 var _ = elliptic.P256
+
+// derLenTwoN returns r, s in [1, n-1] whose ASN.1 DER ECDSA-Sig-Value is exactly
+// 2*size bytes long (size = byte length of n).
+func derLenTwoN(t *tape.Tape, n *big.Int) (*big.Int, *big.Int) {
+	size := (n.BitLen() + 7) / 8
+	for hdr := 2; hdr <= 3; hdr++ {
+		total := 2*size - hdr - 4 // bytes of the two integer contents
+		if total < 2 || (hdr == 2 && total+4 > 127) || (hdr == 3 && (total+4 < 128 || total+4 > 255)) {
+			continue
+		}
+		lo, hi := total-(size-1), size-1
+		if lo < 1 {
+			lo = 1
+		}
+		if hi > total-1 {
+			hi = total - 1
+		}
+		if lo > hi {
+			continue
+		}
+		lr := lo + t.Choose(hi-lo+1, "c16.derlen.lr")
+		mk := func(l int) *big.Int {
+			b := t.Bytes(l, "c16.derlen.bytes")
+			b[0] = b[0]&0x7f | 0x01 // no DER sign padding, no leading zero
+			return new(big.Int).SetBytes(b)
+		}
+		a, b := mk(lr), mk(total-lr)
+		der, err := asn1.Marshal(struct{ R, S *big.Int }{a, b})
+		if err != nil || len(der) != 2*size || a.Cmp(n) >= 0 || b.Cmp(n) >= 0 {
+			continue
+		}
+		return a, b
+	}
+	return nil, nil
+}
+
+// forgeECKey chooses r and s with several leading zero bytes and returns the
+// public key under which (r, s) is a valid ECDSA signature of digest.
+func forgeECKey(t *tape.Tape, curve elliptic.Curve, digest []byte) (*ecdsa.PublicKey, *big.Int, *big.Int) {
+	p := curve.Params()
+	size := (p.N.BitLen() + 7) / 8
+	short := func(label string) *big.Int {
+		k := 4 + t.Choose(size/2, label)
+		b := t.Bytes(size-k, label+".b")
+		b[0] |= 1
+		return new(big.Int).SetBytes(b)
+	}
+	three := big.NewInt(3)
+	for try := 0; try < 40; try++ {
+		r := short("c16.forge.r")
+		if try > 0 {
+			r.Add(r, big.NewInt(int64(try)))
+		}
+		// y^2 = x^3 - 3x + b
+		x3 := new(big.Int).Exp(r, three, p.P)
+		x3.Sub(x3, new(big.Int).Mul(three, r)).Add(x3, p.B).Mod(x3, p.P)
+		y := new(big.Int).ModSqrt(x3, p.P)
+		if y == nil || !curve.IsOnCurve(r, y) {
+			continue
+		}
+		s := short("c16.forge.s")
+		z := new(big.Int).SetBytes(digest)
+		if len(digest) > size {
+			z.SetBytes(digest[:size])
+		}
+		if excess := min(len(digest), size)*8 - p.N.BitLen(); excess > 0 {
+			z.Rsh(z, uint(excess))
+		}
+		rinv := new(big.Int).ModInverse(r, p.N)
+		if rinv == nil {
+			continue
+		}
+		sx, sy := curve.ScalarMult(r, y, s.Bytes())
+		negz := new(big.Int).Sub(p.N, new(big.Int).Mod(z, p.N))
+		zx, zy := curve.ScalarBaseMult(negz.Bytes())
+		tx, ty := curve.Add(sx, sy, zx, zy)
+		qx, qy := curve.ScalarMult(tx, ty, rinv.Bytes())
+		if qx.Sign() == 0 && qy.Sign() == 0 {
+			continue
+		}
+		return &ecdsa.PublicKey{Curve: curve, X: qx, Y: qy}, r, s
+	}
+	return nil, nil, nil
+}
